@@ -5,16 +5,16 @@ from __future__ import annotations
 
 import numpy as np
 
-from solvers import COMBOS, Prepared, dense_design, solver_cells
+from solvers import solve_with_batch, COMBOS, Prepared, dense_design, solver_cells
 
-UNITS = ["SolverStruct", "BatchGen"]
+UNITS = ["SolverStruct", "BatchGen", "DesignGen"]
 PROPS = ["props/C13.v"]
 ASSUMPTIONS = ["exact real arithmetic in the theorems; agreement 'to precision' (1e-7 relative to the largest element) is a tolerance check on well-conditioned data"]
 
 
 def fit(P, orders, d, f, bs):
     o = P.new(d, f)
-    o.solve(orders=list(orders), is_compact_fc=False, batch_size=bs)
+    solve_with_batch(o, P, orders, False, bs)
     return {m: np.array(o.force_constants[m]) for m in orders}
 
 
@@ -54,7 +54,18 @@ def check(ctx):
                 continue
             rep = {**P.describe(), "orders": list(orders), "disps": d.tolist(), "f1": f1.tolist(), "f2": f2.tolist()}
 
+            def sfit(*a):
+                try:
+                    return fit(*a)
+                except np.linalg.LinAlgError as e:
+                    return e
+
             def judge(name, got, exp, extra=None):
+                if isinstance(got, Exception):
+                    ctx.case({**descr, "relation": name}, nontrivial=True)
+                    ctx.fail("oracle", f"C13/oracle/{name.split('[')[0]}", f"{P.sc['name']} orders {orders}: the fit of the transformed dataset ({name}) raised {got} although the original dataset was fitted",
+                             replay={**rep, "relation": name, **(extra or {})}, has_input=True)
+                    return
                 ok, m, err = close(got, exp)
                 ctx.case({**descr, "relation": name}, nontrivial=True)
                 ctx.count("relation:" + name.split("[")[0])
@@ -62,18 +73,21 @@ def check(ctx):
                     ctx.fail("oracle", f"C13/oracle/{name.split('[')[0]}", f"{P.sc['name']} orders {orders}: relation {name} violated for fc{m} (relative difference {err:.2e})",
                              replay={**rep, "relation": name, **(extra or {})}, has_input=True)
             a, b = 1.7, -0.6
-            judge("linearity", fit(P, orders, d, a * f1 + b * f2, 100), {m: a * base1[m] + b * base2[m] for m in orders})
+            judge("linearity", sfit(P, orders, d, a * f1 + b * f2, 100), {m: a * base1[m] + b * base2[m] for m in orders})
             for bs in (1, 2, 5):
                 perm = rng.permutation(n)
-                judge(f"permutation[batch={bs}]", fit(P, orders, d[perm], f1[perm], bs), base1, {"perm": perm.tolist(), "batch_size": bs})
-            judge("duplication[x2]", fit(P, orders, np.concatenate([d, d]), np.concatenate([f1, f1]), 3), base1)
+                judge(f"permutation[batch={bs}]", sfit(P, orders, d[perm], f1[perm], bs), base1, {"perm": perm.tolist(), "batch_size": bs})
+            judge("duplication[x2]", sfit(P, orders, np.concatenate([d, d]), np.concatenate([f1, f1]), 3), base1)
             if not ctx.quick:
-                judge("duplication[x3]", fit(P, orders, np.concatenate([d, d, d]), np.concatenate([f1, f1, f1]), 7), base1)
+                judge("duplication[x3]", sfit(P, orders, np.concatenate([d, d, d]), np.concatenate([f1, f1, f1]), 7), base1)
             if len(orders) == 1:
                 m = orders[0]
                 for s in (-2.0, 0.5, 3.0):
-                    judge(f"scaling[s={s}]", fit(P, orders, s * d, s ** (m - 1) * f1, 100), base1, {"s": s})
-            z = fit(P, orders, d, np.zeros_like(f1), 100)
+                    judge(f"scaling[s={s}]", sfit(P, orders, s * d, s ** (m - 1) * f1, 100), base1, {"s": s})
+            z = sfit(P, orders, d, np.zeros_like(f1), 100)
+            if isinstance(z, Exception):
+                ctx.fail("oracle", "C13/oracle/zero", f"{P.sc['name']} orders {orders}: zero forces make the fit raise {z}", replay={**rep, "relation": "zero"}, has_input=True)
+                continue
             ctx.case({**descr, "relation": "zero"}, nontrivial=True)
             if any(np.abs(z[m]).max() > 1e-12 for m in orders):
                 ctx.fail("oracle", "C13/oracle/zero", f"{P.sc['name']} orders {orders}: zero forces give non-zero force constants", replay={**rep, "relation": "zero"}, has_input=True)
